@@ -377,6 +377,8 @@ def gen_case(rng):
                 tgt = rng.choice(names[depth[nm] + 1:])
                 fl = {f: rng.random() < 0.5 for f in ('success', 'failure', 'notify')}
                 extra[i] = [['fire', {'name': tgt, 'flags': fl}]]
+                if rng.random() < 0.2:
+                    extra[i].append(['flush'])      # ... and flushes the queue itself before it goes on (the fired event is handled inside this handler)
         handlers += mk_handlers(nm, shapes, hid0=hid, extra=extra)
         hid += len(shapes)
     fires = []
